@@ -94,7 +94,7 @@ func main() {
 	})
 }
 
-func plan(tier string, seed int64) []run.Batch {
+func planBase(tier string, seed int64) []run.Batch {
 	srvChildren, srvSeq, cliChildren, cliSeq := 4, 10, 10, 4
 	if tier == "thorough" {
 		srvChildren, srvSeq, cliChildren, cliSeq = 30, 50, 125, 12
@@ -126,7 +126,7 @@ func plan(tier string, seed int64) []run.Batch {
 
 var theBatch run.Batch
 
-func child(b run.Batch, r *ev.Result) {
+func childBase(b run.Batch, r *ev.Result) {
 	theBatch = b
 	rng := rand.New(rand.NewSource(b.Seed))
 	drv.SetClock(0)
